@@ -3,4 +3,4 @@ From LV Require Import Session.FileXferDefs Session.FileXferTight Session.FileXf
 Require Import ExtrOcamlBasic.
 Extraction Language OCaml.
 Extraction "../build/ocaml/C19/model.ml" run_message run_chunk run_gone st0 translate_pure tight_target stays_below_root convert_path
-  tight_step_g tight_gate tstate0 v_tight_tree v_tight_pre45 v_tight_pre4 v_tight_pre5 v_tight_prefix run_args tinit0.
+  tight_step_g join_dir tight_gate tstate0 v_tight_tree v_tight_pre45 v_tight_pre4 v_tight_pre5 v_tight_prefix run_args t_effective tinit0.
